@@ -135,7 +135,7 @@ fn short_string_sets(tier: Tier) -> Vec<(u32, Vec<String>)> {
 }
 
 fn malformed_list() -> Vec<String> {
-    let mut v: Vec<String> = ["", "+", "-", ".", "+.", "-.", "..", "1..", ".1.", "1.2.3", "1+", "1-", "1+2", "1-2", "+-1", "-+1", "++1", "--1", "1e5", "1E5", "0x1", "0b1", "0o1", " 1", "1 ", "1_000", "١", "é", "1\u{0}", "\u{0}", "1.5f", "NaN", "inf", "-inf", "１", "1,5", "½"]
+    let mut v: Vec<String> = ["", "+", "-", ".", "+.", "-.", "..", "1..", ".1.", "1.2.3", "1+", "1-", "1+2", "1-2", "+-1", "-+1", "++1", "--1", "1e5", "1E5", "0x1", "0b1", "0o1", " 1", "1 ", "1_000", "١", "é", "1\u{0}", "\u{0}", "1.5f", "NaN", "inf", "-inf", "１", "1,5", "½", "1é2", "1.é", "é.5", "12½", "0.5１", "-é", "+１", "1.\u{301}5", "\u{feff}1", "1\u{200b}", "1.5\n", "\t1", "1__2", "0x", "1.e", "1.-5", "-", "1.+5", ".+5", "+.5.", "5.-", "٣.١٤"]
         .iter()
         .map(|s| s.to_string())
         .collect();
